@@ -126,7 +126,7 @@ def work(job):
     # online trace rule: nothing is written through a name that is already a source file
     through = [o for o in (rec.shim or []) if fault.phase_of(o) in TRACE_RULE_PHASES]
     torn = {rel: s for rel, s in states.items() if s.startswith("torn")}
-    act_class = action if (action in ("kill-before", "kill-after", "short", "EPIPE-on-log-line", "all-reads-short", "stall+kill", "stall+EIO") or action.startswith("read-")) else "short+errno" if action.startswith("short+") else ("persistent-errno" if action.startswith("persistent") else ("errno+kill" if "+kill" in action else "errno"))
+    act_class = "signal+kill" if action.startswith("SIGTERM+") else action if (action in ("kill-before", "kill-after", "short", "EPIPE-on-log-line", "all-reads-short", "stall+kill", "stall+EIO") or action.startswith("read-")) else "short+errno" if action.startswith("short+") else ("persistent-errno" if action.startswith("persistent") else ("errno+kill" if "+kill" in action else "errno"))
     for rel, s in sorted(torn.items()):
         res["violations"].append({"signature": "C07.%s|%s|%s" % (s, act_class, phase),
                                   "detail": {"file": rel, "state": s, "k": k, "action": action, "phase": phase, "end": rec.ended(),
@@ -192,6 +192,45 @@ def history_work(job):
     return res
 
 
+def overlap_work(job):
+    """Two edit runs on two different projects at the same time with one TMPDIR (workspace members processed in parallel, an
+    on-save hook during a manual run): run A is held at one of its scratch-file operations, run B runs to completion meanwhile,
+    then A continues. Neither project may end up with anything but its own originals or complete updates."""
+    built, pi, projA, projB, k = job
+    res = {"evaluations": 2, "nontrivial": [], "violations": [], "samples": [], "inconclusive": {}, "counters": {}}
+    with core.Box(tag="c07oa") as boxA, core.Box(tag="c07ob") as boxB:
+        cfgA = projA.materialise(boxA)
+        cfgB = projB.materialise(boxB)
+        done = {}
+
+        def run_b():
+            done["b"] = core.run_breadlog(built, boxB, cfgB, tmpdir=boxA.tmp, timeout=60)
+        recA = core.run_breadlog(built, boxA, cfgA, rules="n=%d,act=delay:700" % k, shim=True, timeout=120, on_first_fire=run_b)
+        # B may still be running when A has finished (it was started from a watcher thread): wait for it
+        import time as _t
+        t0 = _t.time()
+        while "b" not in done and _t.time() - t0 < 90:
+            _t.sleep(0.01)
+        statesA, _ = fault.post_state(projA, boxA, {})
+        statesB, _ = fault.post_state(projB, boxB, {})
+        _t.sleep(0.05)
+        statesB2, _ = fault.post_state(projB, boxB, {})
+    if "b" not in done:
+        res["inconclusive"]["second run was never started (the delay did not fire)"] = 1
+        return res
+    res["nontrivial"].append("overlap|%s|%d" % (projA.label, k))
+    res["counters"]["overlapping_runs"] = 1
+    for who, states in (("held-run", statesA), ("other-run", statesB), ("other-run-later", statesB2)):
+        torn = {rel: st for rel, st in states.items() if st.startswith("torn")}
+        if torn:
+            rel = sorted(torn)[0]
+            res["violations"].append({"signature": "C07.%s|overlapping-runs-sharing-TMPDIR|%s" % (torn[rel], who),
+                                      "detail": {"file": rel, "exitA": recA.ended(), "exitB": done["b"].ended()},
+                                      "case": {"overlap": [pi, k]}})
+            break
+    return res
+
+
 def box_tail(b):
     return b[-200:]
 
@@ -244,6 +283,18 @@ def main(tier):
                 o = rec1.shim[j - 1]
                 for act in ("kill-before", "kill-after"):
                     jobs.append((built, pi, proj, expected, "%d+%d" % (k, j), a + "+" + act, "%s;n=%d,act=%s" % (r, j, act), fault.phase_of(o)))
+        # a stop request after the first file has been replaced, then a kill before / after every later operation of the stopping run
+        # (`timeout -k`, `docker stop`: SIGTERM, then SIGKILL) - whatever the run does while it winds down must be crash-safe too
+        ren0 = next((o["n"] for o in ops if o["kind"] == "rename" and "Breadlog.lock" not in (o["path"] or "")), None)
+        if ren0 and pi < 4:
+            for ksig in (ren0 + 1, ren0 + 2):
+                rs = "n=%d,act=sig:15" % ksig
+                rec1, _, _, fired1 = run_injection(built, proj, expected, ksig, "sig", rs)
+                if not fired1 or not rec1.shim:
+                    continue
+                for j in range(ksig + 1, len(rec1.shim) + 1):
+                    for act in ("kill-before", "kill-after"):
+                        jobs.append((built, pi, proj, expected, "%d+%d" % (ksig, j), "SIGTERM+" + act, "%s;n=%d,act=%s" % (rs, j, act), fault.phase_of(rec1.shim[j - 1])))
         # stdout is a pipe whose reader has gone away: the k-th log line fails with EPIPE, println! panics, the process unwinds
         # (destructors run) - for every log line of the clean run
         sops, _, _, _, _ = fault.clean_reference(built, proj, stdio_ops=True)
@@ -296,6 +347,15 @@ def main(tier):
             hjobs.append((built, pi, proj, k, "kill-before"))
             hjobs.append((built, pi, proj, k, "kill-after"))
     for res in frame.pmap(history_work, hjobs, chunksize=4):
+        ck.absorb(res)
+    ojobs = []
+    for pi in range(min(3, len(ps) - 1)):
+        projA, projB = ps[pi], ps[pi + 1]
+        opsA, _, recA0, _, _ = fault.clean_reference(built, projA)
+        cand = [o["n"] for o in opsA if fault.phase_of(o) in ("tmp-write", "tmp-close", "rename", "tmp-create")]
+        for k in cand[:6]:
+            ojobs.append((built, pi, projA, projB, k))
+    for res in frame.pmap(overlap_work, ojobs, chunksize=1):
         ck.absorb(res)
     audit = blind_spot_audit(built, ps[0])
     ck.extra["blind_spot_audit"] = audit
@@ -361,6 +421,9 @@ def replay_witness(w, ck=None, built=None):
     seed = w.get("seed", 0)
     tier = w.get("tier", "quick")
     ps = projects(tier, seed)
+    if "overlap" in c:
+        pi, k = c["overlap"]
+        return bool(overlap_work((built, pi, ps[pi], ps[pi + 1], k))["violations"])
     if "history" in c:
         pi, k, how = c["history"]
         return bool(history_work((built, pi, ps[pi], k, how))["violations"])
